@@ -1,4 +1,5 @@
 from __future__ import annotations
+from copy import deepcopy
 from typing import TYPE_CHECKING
 from dataclasses import dataclass, field
 from enum import Enum
@@ -138,7 +139,9 @@ class DENRequest:
             # Data elements values
             detection_time=service.detection_time,
             time_period=service.denm_duration,
-            event_position=service.event_position,
+            # A copy: the service updates its position dictionary in place for the next event,
+            # which must not move an event whose DENMs are still being repeated
+            event_position=deepcopy(service.event_position),
             # Specific use cases data elemenets
             rhs_cause_code="emergencyVehicleApproaching95",
             rhs_subcause_code=1,  # [OPTIONAL]
